@@ -119,8 +119,13 @@ impl VsockDev {
             return None;
         }
         let head = c.held.get(&0).unwrap()[j].head;
+        let cap = c.held.get(&0).unwrap()[j].writable_len();
         let mut data = h.encode();
         data.extend_from_slice(payload);
+        // A device may report more bytes used than header + body (padding, rounding): with
+        // `PAD_USED` set, up to 6 further bytes (that belong to no packet) follow and are counted.
+        let pad = PAD_USED.with(|p| p.get()).min(cap.saturating_sub(data.len()));
+        data.extend(std::iter::repeat(0xEE).take(pad));
         let n = data.len() as u32;
         c.complete_held(0, j, &data, n);
         Some(head)
@@ -135,4 +140,10 @@ impl VsockDev {
         c.complete_held(0, j, data, used_len);
         Some(head)
     }
+}
+
+thread_local! {
+    /// Number of stray bytes that `VsockDev::deliver` appends behind each packet and includes in the
+    /// used length (0 = exact lengths).
+    pub static PAD_USED: std::cell::Cell<usize> = const { std::cell::Cell::new(0) };
 }
